@@ -223,3 +223,127 @@ Definition ggm_to_bincode (k0 k1 : bytes) (g : gstate bytes) : bytes :=
   ++ flat_map bitvec_to_bincode (gPunctured bytes g).
 Definition server_to_bincode (s : server) : bytes :=
   sc_to_bytes (sv_key s) ++ pk_to_bincode (sv_pk s) ++ ggm_to_bincode (sv_k0 s) (sv_k1 s) (sv_ggm s).
+
+(* ---------- JSON forms as serde_json writes them (canonical grammar only: no whitespace, this key order) ----------
+   Evaluation: an object with key output (base64 string of the 32-byte point) and key proof (null, or an
+   object with keys c and s, each an array of 32 numbers).  Point: an array of 32 numbers.                 *)
+From StarV Require Import Wasm.
+Definition digit (d : N) : N := (48 + d)%N.
+Definition dec_u8 (n : N) : bytes :=
+  if (n <? 10)%N then [digit n]
+  else if (n <? 100)%N then [digit (n / 10); digit (n mod 10)]
+  else [digit (n / 100); digit ((n / 10) mod 10); digit (n mod 10)].
+Fixpoint json_nums (l : bytes) : bytes :=
+  match l with
+  | [] => []
+  | [a] => dec_u8 a
+  | a :: t => dec_u8 a ++ 44%N :: json_nums t
+  end.
+Definition json_array (l : bytes) : bytes := 91%N :: json_nums l ++ [93%N].
+Definition js_output : bytes := [123; 34; 111; 117; 116; 112; 117; 116; 34; 58; 34]%N.       (* open brace, key output, colon, opening quote *)
+Definition js_proof : bytes := [34; 44; 34; 112; 114; 111; 111; 102; 34; 58]%N.              (* closing quote, comma, key proof, colon *)
+Definition js_null : bytes := [110; 117; 108; 108]%N.
+Definition js_c : bytes := [123; 34; 99; 34; 58]%N. 
+Definition js_s : bytes := [44; 34; 115; 34; 58]%N. 
+Definition json_evaluation (output : bytes) (pr : option proof) : bytes :=
+  js_output ++ b64_encode output ++ js_proof
+  ++ match pr with
+     | None => js_null
+     | Some p => js_c ++ json_array (sc_to_bytes (pr_c p)) ++ js_s ++ json_array (sc_to_bytes (pr_s p)) ++ [125%N]
+     end ++ [125%N].
+
+(* parsing the same grammar *)
+Definition is_digit (c : N) : bool := ((48 <=? c) && (c <=? 57))%N.
+(* one number 0..255 without leading zeros, followed by a non-digit *)
+Definition parse_u8 (s : bytes) : option (N * bytes) :=
+  match s with
+  | d0 :: rest =>
+      if is_digit d0 then
+        match rest with
+        | d1 :: rest1 =>
+            if is_digit d1 then
+              if N.eqb d0 48 then None
+              else match rest1 with
+                   | d2 :: rest2 =>
+                       if is_digit d2 then
+                         match rest2 with
+                         | d3 :: _ => if is_digit d3 then None
+                                      else let v := ((d0 - 48) * 100 + (d1 - 48) * 10 + (d2 - 48))%N in
+                                           if (v <? 256)%N then Some (v, rest2) else None
+                         | [] => None
+                         end
+                       else Some (((d0 - 48) * 10 + (d1 - 48))%N, rest1)
+                   | [] => None
+                   end
+            else Some ((d0 - 48)%N, rest)
+        | [] => None
+        end
+      else None
+  | [] => None
+  end.
+Fixpoint parse_nums (n : nat) (s : bytes) : option (bytes * bytes) :=
+  match n with
+  | O => None
+  | S O => match parse_u8 s with Some (v, rest) => Some ([v], rest) | None => None end
+  | S n' => match parse_u8 s with
+            | Some (v, c :: rest) => if N.eqb c 44 then
+                                       match parse_nums n' rest with Some (vs, r) => Some (v :: vs, r) | None => None end
+                                     else None
+            | _ => None
+            end
+  end.
+Definition parse_array32 (s : bytes) : option (bytes * bytes) :=
+  match s with
+  | c :: rest => if N.eqb c 91 then
+                   match parse_nums 32 rest with
+                   | Some (vs, d :: r) => if N.eqb d 93 then Some (vs, r) else None
+                   | _ => None
+                   end
+                 else None
+  | [] => None
+  end.
+Fixpoint strip_prefix (p s : bytes) : option bytes :=
+  match p, s with
+  | [], _ => Some s
+  | a :: p', b :: s' => if N.eqb a b then strip_prefix p' s' else None
+  | _ :: _, [] => None
+  end.
+Definition json_point_decode (s : bytes) : option bytes :=
+  match parse_array32 s with Some (vs, []) => Some vs | _ => None end.
+Definition json_evaluation_decode (s : bytes) : option (bytes * option proof) :=
+  match strip_prefix js_output s with
+  | None => None
+  | Some r0 =>
+      let b64 := firstn 44 r0 in
+      match b64_decode b64, strip_prefix js_proof (skipn 44 r0) with
+      | Some out, Some r1 =>
+          if negb (Nat.eqb (length out) 32) then None
+          else match strip_prefix js_null r1 with
+               | Some r2 => if bytes_eqb r2 [125%N] then Some (out, None) else None
+               | None =>
+                   match strip_prefix js_c r1 with
+                   | None => None
+                   | Some r2 =>
+                       match parse_array32 r2 with
+                       | Some (cb, r3) =>
+                           match strip_prefix js_s r3 with
+                           | Some r4 =>
+                               match parse_array32 r4 with
+                               | Some (sb, r5) =>
+                                   if bytes_eqb r5 [125%N; 125%N] then
+                                     match sc_canonical cb, sc_canonical sb with
+                                     | Some c, Some s' => Some (out, Some {| pr_c := c; pr_s := s' |})
+                                     | _, _ => None
+                                     end
+                                   else None
+                               | None => None
+                               end
+                           | None => None
+                           end
+                       | None => None
+                       end
+                   end
+               end
+      | _, _ => None
+      end
+  end.
